@@ -19,6 +19,7 @@ def decode_send(text):
 
 def run_scenarios(ctx: core.Ctx, rep: core.Report, make_scenario, oracle, n, label, sample_every=None):
     """make_scenario(rng, k) -> Scenario; oracle(sc, result, rep) adds violations"""
+    names0 = scen._NAME_ONLY["count"]
     for k in range(n):
         sc = make_scenario(ctx.rng, k)
         res = scen.execute(ctx.model, sc)
@@ -40,3 +41,7 @@ def run_scenarios(ctx: core.Ctx, rep: core.Report, make_scenario, oracle, n, lab
         oracle(sc, res, rep, case)
         if k < 2:
             rep.sample({"scenario": label, "events": evs[:25], "last_impl_state": res["impl"][-1][:300] if res["impl"] else ""})
+    if scen._NAME_ONLY["count"] > names0:
+        rep.dist[f"{label}:state-lines-equal-up-to-callback-names"] += scen._NAME_ONLY["count"] - names0
+        rep.notes.append("some callbacks carry other names than the harness knows (renamed private methods?): compared by kind "
+                         "and by what they do when they run")
